@@ -136,6 +136,15 @@ claim("C18", "other",
       "the two entry points run the same pre-checks with the same codes and call handle_method identically for non-subscription methods.",
       "DESIGN.md 5 C18", "serde_json's parser/serialiser are trusted (external crate); JSON text equality of the two entry points is decided as same construction sites, not as string equality.")
 
+claim("C17", "other",
+      "decision-table extraction: the (weak, reason) verdict and the three history values written per link are expanded from their multi-definition locals into guarded alternatives over the body's comparisons (BDD), then the property's clauses are checked as entailments for every combination; loop-shape, who-may-write and value-provenance rules for the plumbing",
+      "One classify() pass is decided for every combination of its comparisons: links that are disconnected or below the floor get a literal weak=false and the computed verdict is reached only under connected & total >= 100000 & n > 0, "
+      "with total the sum of max(bitrate,0) over exactly the connected links; a delay verdict implies signal now & sat(streak+1) >= 2 and the stored streak is sat(prev+1) under a signal, else 0; under probation > 0 the verdict is "
+      "(false, Healthy) and probation' = probation-1; every share-weak verdict is counted until sat(streak+1) >= 15, which always arms probation' = 3 and restarts the count, as does any other verdict; LowShare needs "
+      "share < 250/n (entering) or < 750/n (staying) and a previously weak link is released only at >= 750/n; the four maps get an entry per connected link under its conn_id and replace the filter's maps on exit; "
+      "the remembered flag is the reported one; conn.weak is stamped from the same-id entry in the housekeeping arm only.",
+      "DESIGN.md 5 C17", "The multi-tick statements follow by induction over ticks from these single-step tables (invariants weak_streak <= 14, probation <= 3); the induction is stated in DESIGN.md, not mechanised. Float rounding of the share is not decided.")
+
 NOT_APPLICABLE = {}
 ALL = ["C%02d" % i for i in range(1, 21)]
 
